@@ -181,12 +181,13 @@ func evalHistoryFrom(c *hcase, pre writer) (string, int) {
 		if err != nil {
 			return fmt.Sprintf("write %d (%s): %v", i, opNames[op], err)
 		}
-		if len(cp.bufs) != before+1 {
-			return fmt.Sprintf("write %d (%s): %d transport writes", i, opNames[op], len(cp.bufs)-before)
+		var emittedBytes []byte
+		for _, b := range cp.bufs[before:] {
+			emittedBytes = append(emittedBytes, b...)
 		}
-		f, ok := gm.ParseExactly(cp.bufs[before])
+		f, ok := gm.ParseExactly(emittedBytes)
 		if !ok {
-			return fmt.Sprintf("write %d: emitted bytes are not one frame: % x", i, cp.bufs[before])
+			return fmt.Sprintf("write %d (%s): emitted bytes are not one frame: % x", i, opNames[op], emittedBytes)
 		}
 		if f.V2 != (c.Conf.Version == 2) {
 			return "wrong protocol version on the wire"
